@@ -47,7 +47,7 @@ CHECKS['C17'] = dict(
           dict(name='all-4-byte-buffers', spec=H('h_crc.c', 'fast'), args=['four'], tiers=['thorough'])],
     states_key='cases', transitions_key='transitions', traces_key='cases',
     rule='one case = (content family, length, alignment, patched position, value); signature = (min(len,24+len%8), alignment, family)',
-    bounds={'quick': 'len 0..1100 x align 0..7 x 6 families; every value at every position of len 1..16 (rest 00 / ff) x align 0..7; all 1- and 2-byte buffers',
+    bounds={'quick': 'len 0..1100 x align 0..7 x 6 families; multiples of 4096 up to 64 KiB and 2^11..2^17, each -1/0/+1; every value at every position of len 1..16 (rest 00 / ff) x align 0..7; all 1- and 2-byte buffers',
             'thorough': 'len 0..4200, 2^k+-1 up to 2^22; positions in len 1..40; all 3-byte buffers; ALL 2^32 4-byte buffers'},
     nonzero=['cases', 'sse42_available'],
     assumptions=['host CPU offers SSE4.2 (otherwise the hardware path cannot run; the check then fails its vacuity guard rather than pass silently)'],
@@ -259,6 +259,8 @@ _C13_QUICK = [
     'pool2-ordered 2 1 2', 'pool2-unordered 1 2 2', 'pool2t-unordered 2 1 1', 'pool2t-ordered 2 1 1', 'pool2t-unordered 1 1 1',
     'writer 1 0 2', 'writer 1 2 3', 'writer 2 3 2', 'writer 2 2 2 comp=3', 'writer2 2 2 1', 'writer2t 2 1 1',
     'sorter 1 2 3', 'sorter 2 3 2', 'sorter 2 0 2',
+    # the same programs with a scheduling point after every unlock as well (a statement moved behind an unlock is only visible there)
+    'pool-unordered 1 2 2 unlockpts', 'pool-unordered 2 3 1 unlockpts', 'pool-ordered 2 3 1 unlockpts', 'writer 2 3 1 unlockpts', 'sorter 1 2 2 unlockpts',
 ]
 _C13_THOROUGH = [
     'pool-ordered 1 3 3', 'pool-ordered 2 3 3', 'pool-unordered 2 3 3', 'pool-ordered 2 4 2', 'pool-unordered 2 4 2', 'pool-ordered 3 3 2', 'pool-unordered 3 3 2',
@@ -275,7 +277,7 @@ CHECKS['C13'] = dict(
     jobs=_sjobs('asan', _C13_QUICK) + _sjobs('asan', _C13_THOROUGH, tiers=['thorough'], prefix='T:'),
     states_key='states', transitions_key='transitions', traces_key='executions',
     rule='states = distinct happens-before states expanded at choice points; transitions = scheduling/choice points executed; signature = (delivery order observed, #preemptions, #spurious wake-ups)',
-    bounds={'quick': 'P in {1,2}, J in {0..3}; preemption bound 3 for P=1, 2 for P=2/J=3 and two clients of one caller, 1 for two caller threads; no spurious wake-ups (per-job arguments: scenario P J bound)',
+    bounds={'quick': 'P in {1,2}, J in {0..3}; preemption bound 3 for P=1, 2 for P=2/J=3 and two clients of one caller, 1 for two caller threads; no spurious wake-ups; five configurations also with scheduling points after unlock (per-job arguments: scenario P J bound)',
             'thorough': 'adds J=4, P=3, bound 3 on P=2/J=3, spurious wake-ups <=1, scheduling points at unlock on small configurations'},
     nonzero=['states', 'executions', 'executions_with_preemption', 'cond_waits', 'blocking_joins'],
     assumptions=['sequentially consistent interleavings at synchronisation operations (sufficient for data-race-free code; races are C14)', 'the scheduler\'s model of mutex/condition semantics (cross-checked by the free-running pass of C14)', 'happens-before caching is sound for data-race-free programs'],
@@ -330,7 +332,7 @@ CHECKS['C19'] = dict(
     rule='one case = (damage family, seed, parameters, verify_checksums, entry point); signature = (family, seed)',
     bounds={'quick': 'all families on 6 seeds x {verify off,on} x {init, init_fd}; see harness/h_ropen.c for the value sets',
             'thorough': 'same (the families are exhaustive as defined)'},
-    nonzero=['cases', 'returned_null', 'returned_reader', 'stopped_on_assertion'],
+    nonzero=['cases', 'returned_null', 'returned_reader', 'stopped_on_assertion', 'mmap_env_cases'],
     assumptions=['unstructured content is covered only by a fixed pseudo-random family (3 x 3000 files, generator with fixed seeds); the structured families target every field the open path reads'],
     budget={'quick': 300, 'thorough': 1200},
 )
